@@ -223,6 +223,14 @@ def conc_check(ctx, module, theorems, props, what, assumptions, extra_quick=('ca
             kinds[k] = kinds.get(k, 0) + v
         for f in o["fails"]:
             if f["prop"] in props:
+                # a listed known finding of this property (known_findings.json, matched by what fails): said, not alarmed
+                kf = next((k for k in load_known().get("findings", []) if k.get("property") == ctx.prop and f["prop"] == ctx.prop
+                           and k.get("signature", {}).get("what_prefix") and f["what"].startswith(k["signature"]["what_prefix"])), None)
+                if kf is not None:
+                    line = "%s %s [replay %s; this run: %s]" % (kf["id"], kf["history"], kf["replay"], f["what"][:200])
+                    if not any(x.startswith(kf["id"] + " ") for x in ctx.known):
+                        ctx.known.append(line)
+                    continue
                 nfail += 1
                 if reported < 3:
                     reported += 1
